@@ -952,6 +952,12 @@ func c17RaceRun(c c17Case) (changed int, note string) {
 		before[i] = c17U64s(hs)
 	}
 
+	// half of the cases share a real cache between the goroutines (cache-hit paths), half always miss
+	var shared *c17Cache
+	if len(c.Ops)%2 == 0 {
+		shared = &c17Cache{keep: map[string][]byte{}}
+	}
+
 	var wg sync.WaitGroup
 
 	start := make(chan struct{})
@@ -970,13 +976,13 @@ func c17RaceRun(c c17Case) (changed int, note string) {
 				case g >= c17Goroutines-2 && len(late) > 0:
 					op := late[(g+it)%len(late)]
 					if nm, err := c17Create(f, insts[op.Src].kind, fmt.Sprintf("p%d", op.Src), op.Ovr); err == nil && nm != nil {
-						c17Exec(insts[op.Src].kind, nm, c.Variant)
+						c17ExecWith(insts[op.Src].kind, nm, c.Variant, shared)
 					}
 				case g%5 == 4:
 					c17Accessors(in.kind, in.m)
-					c17Exec(in.kind, in.m, c.Variant)
+					c17ExecWith(in.kind, in.m, c.Variant, shared)
 				default:
-					c17Exec(in.kind, in.m, c.Variant)
+					c17ExecWith(in.kind, in.m, c.Variant, shared)
 				}
 			}
 		}(g)
